@@ -467,6 +467,70 @@ Section Tables.
 End Tables.
 
 (* ------------------------------------------------------------------ *)
+(* load_text end to end (trees.py l.3847-3994)                          *)
+(* ------------------------------------------------------------------ *)
+
+Record tables (F : Type) : Type := mkTables {
+  t_nodes : list (node_row F);
+  t_edges : list (edge_row F);
+  t_sites : list (site_row F);
+  t_mutations : list (mutation_row F);
+  t_individuals : list (individual_row F);
+  t_populations : list bytes;
+  t_migrations : list (migration_row F) }.
+Arguments mkTables {F}. Arguments t_nodes {F}. Arguments t_edges {F}. Arguments t_sites {F}.
+Arguments t_mutations {F}. Arguments t_individuals {F}. Arguments t_populations {F}.
+Arguments t_migrations {F}.
+
+(* the text files handed to load_text; sites ... migrations are optional arguments *)
+Record text_files : Type := mkTexts {
+  x_nodes : bytes; x_edges : bytes; x_sites : option bytes; x_mutations : option bytes;
+  x_individuals : option bytes; x_populations : option bytes; x_migrations : option bytes }.
+
+Definition opt_parse {A} (f : bytes -> res (list A)) (o : option bytes) : res (list A) :=
+  match o with Some t => f t | None => Ok [] end.
+
+Section LoadText.
+  Variable F : Type.
+  Variable parse_int : bytes -> option Z.
+  Variable parse_float : bytes -> option F.
+  Variable sort : tables F -> tables F.          (* tc.sort(): tsk_table_sorter_run (property C07) *)
+
+  (* the order of the calls in load_text: edges, nodes, sites, mutations, individuals,
+     populations (or the back-fill from the node table), migrations; then tc.sort() *)
+  Definition load_text_parse (x : text_files) : res (tables F) :=
+    do edges <- parse_edges F parse_int parse_float (x_edges x);
+    do nodes <- parse_nodes F parse_int parse_float (x_nodes x);
+    do sites <- opt_parse (parse_sites F parse_float) (x_sites x);
+    do mutations <- opt_parse (parse_mutations F parse_int parse_float) (x_mutations x);
+    do individuals <- opt_parse (parse_individuals F parse_int parse_float) (x_individuals x);
+    do populations <- match x_populations x with
+                      | Some t => parse_populations t
+                      | None => Ok (match nodes with
+                                    | [] => []
+                                    | _ => let m := fold_left Z.max (map (fun '(_, _, p, _, _) => p) nodes) (-1) in
+                                           if m =? -1 then [] else repeat [] (Z.to_nat (m + 1))
+                                    end)
+                      end;
+    do migrations <- opt_parse (parse_migrations F parse_int parse_float) (x_migrations x);
+    Ok (mkTables nodes edges sites mutations individuals populations migrations).
+
+  Definition load_text_model (x : text_files) : res (tables F) :=
+    do t <- load_text_parse x; Ok (sort t).
+End LoadText.
+
+(* dump_text of all seven tables (edge metadata goes with the edges) *)
+Definition dump_all (F : Type) (print_int : Z -> bytes) (print_fix print_repr : F -> bytes)
+    (t : tables F) (edge_metadata : list bytes) : text_files :=
+  mkTexts (dump_nodes F print_int print_fix (t_nodes t))
+          (dump_edges F print_int print_fix (combine (t_edges t) edge_metadata))
+          (Some (dump_sites F print_fix (t_sites t)))
+          (Some (dump_mutations F print_int print_repr (t_mutations t)))
+          (Some (dump_individuals F print_int print_repr (t_individuals t)))
+          (Some (dump_populations print_int (t_populations t)))
+          (Some (dump_migrations F print_int print_repr (t_migrations t))).
+
+(* ------------------------------------------------------------------ *)
 (* load_text: the population back-fill (trees.py l.3970-3976)           *)
 (* ------------------------------------------------------------------ *)
 
